@@ -62,13 +62,15 @@ def h_unit(cx, kind, noise):
     cx.check("reported_rate_is_battery_rate", eq(rate * V, b.current_charging_power * 1000))
 
 
-def h_sim(cx, stations, station_of, H, battery, L, period, bounds_only=False, est=False):
+def h_sim(cx, stations, station_of, H, battery, L, period, bounds_only=False, est=False, shard=None):
     env.install(cx)
     A = acn()
     snap = Snap()
     sim_ref = [None]
     net = make_network(cx, stations, None, snap, sim_ref)
     times = sym_times(cx, len(station_of), H, station_of)
+    if shard is not None:  # (arrival, departure) of the first session pinned: the shards of a job family cover all values
+        cx.assume(and_(eq(times[0][0], shard[0]), eq(times[0][1], shard[1])))
     evs, bats = [], []
     for i, (a, d) in enumerate(times):
         b, cap, init, maxp = make_battery(cx, "s%d" % i, battery)
@@ -188,11 +190,14 @@ def sim_jobs(tier, only_bounds=False):
                 (S3, (0, 0, 2), 4, "stepwise", 1, 5), (S3, (0, 1, 2), 3, "ideal", 3, 60)]
     js = []
     for st, so, H, bat, L, per in cfgs:
-        name = "sim%s[n=%d,sess=%s,H=%d,%s,L=%d,T=%d]" % ("_bounds" if only_bounds else "", len(st), "".join(map(str, so)), H, bat, L, per)
-        js.append(Job(name, h_sim, dict(stations=st, station_of=so, H=H, battery=bat, L=L, period=per, bounds_only=only_bounds),
-                      functions=FUNCS, expect_tags=("terminated",) if only_bounds else ("terminated", "pilot_to_vacant_station"), max_paths=60000, timeout=3000,
-                      bounds=dict(stations=len(st), sessions=len(so), horizon=H, schedule_length=L, period_min=per, battery=bat),
-                      cost=(10 ** len(so)) * H * H))
+        # three-session scenarios are split by the first session's (arrival, departure) so that the shards run in parallel
+        shards = [None] if len(so) < 3 else [(a, d) for a in range(H) for d in range(a + 1, H + 1)]
+        for sh in shards:
+            name = "sim%s[n=%d,sess=%s,H=%d,%s,L=%d,T=%d%s]" % ("_bounds" if only_bounds else "", len(st), "".join(map(str, so)), H, bat, L, per, "" if sh is None else ",first=%d-%d" % sh)
+            js.append(Job(name, h_sim, dict(stations=st, station_of=so, H=H, battery=bat, L=L, period=per, bounds_only=only_bounds, shard=sh),
+                          functions=FUNCS, expect_tags=("terminated",) if (only_bounds or sh is not None) else ("terminated", "pilot_to_vacant_station"), max_paths=60000, timeout=3000,
+                          bounds=dict(stations=len(st), sessions=len(so), horizon=H, schedule_length=L, period_min=per, battery=bat, first_session="any" if sh is None else "arrival %d, departure %d" % sh),
+                          cost=(10 ** len(so)) * H * H))
     return js
 
 
